@@ -31,7 +31,8 @@ ASSUMPTIONS = [
     "|dist| (inside both when penetrating, outside both and on the shortest segment when separated), or pos -/+ normal*dist/2 are "
     "surface points of geom1/geom2 (mjContact.pos: 'midpoint between geoms')",
     "exactly symmetric configurations (coincident centres, point on a medial axis, parallel capsules) have no unique normal: any "
-    "normal that realises the true distance is accepted; tolerances are 1e-9*(sum of extents) for closed-form colliders",
+    "normal that realises the true distance is accepted; tolerances are 1e-9*(sum of extents + centre distance) for closed-form "
+    "colliders (1e-8 for capsule-box)",
     "box-box: the contact collider (mjc_BoxBox) is exact only up to its multi-contact construction; contact distance and "
     "mj_geomDistance (native GJK/EPA for box-box) are compared with rtol 1e-3*size / 10*ccd_tolerance as in the design note, plus 5% of "
     "the depth when penetrating (the collider deliberately prefers a face axis whose depth is within 5% of the best edge-edge axis)",
@@ -465,6 +466,8 @@ def check_pose(P, S, obs, distmax, tag, witness, tol_contact=None, tol_gd=None, 
         tolc = max(tolc, 0.05 * abs(ref["dist"]))       # mjc_BoxBox prefers a face axis within 5% of the best edge-edge axis
     tolg = tol_gd if tol_gd is not None else (1e-9 * scale if not isbox else max(1e-6 * ext, 10 * ccd_tol))
     mech = ""
+    if (A.kind, B.kind) == (cx.CAPSULE, cx.BOX) and tol_contact is None:
+        tolc, tolg = 1e-8 * scale, 1e-8 * scale       # segment/edge 2x2 systems with near-parallel directions (observed 2e-9 relative)
     if (A.kind, B.kind) == (cx.PLANE, cx.CYLINDER):
         # the collider forms axis*<n,axis> - n and normalises it: relative rounding eps/sin(angle) on the rim point for nearly
         # parallel disc and plane (conditioning of the formula, scaled to the operands)
